@@ -143,6 +143,11 @@ func programOf(name string) (base, main *progen.Spec) {
 			}
 		}
 		main = chain(src, progen.Node{Op: "reduce", Fn: &progen.Fn{}})
+	case "big-reshuffle":
+		// a root whose shards are tens of kilobytes (many batches) and hold their rows in the order in
+		// which the shuffle happened to deliver them: the reads of the final scan are cut after 100, 3000
+		// and 20000 bytes
+		main = chain(source(2, 6000, 100000), progen.Node{Op: "reshuffle"})
 	case "reused-result":
 		base = chain(source(3, 60, 7), progen.Node{Op: "reduce", Fn: &progen.Fn{}})
 		main = mk(progen.Node{Op: "arg", Arg: 0}, progen.Node{Op: "map", In: []int{0}, Fn: &progen.Fn{Exprs: []progen.Expr{{K: "hash", T: progen.TInt, M: 3}, {K: "col", I: 1}}}}, progen.Node{Op: "reduce", In: []int{1}, Fn: &progen.Fn{}})
@@ -165,7 +170,7 @@ func programOf(name string) (base, main *progen.Spec) {
 	return
 }
 
-var suite = []string{"map-only", "reduce", "fold", "cogroup", "two-stage", "reshuffle-root", "repartition-flatmap", "reshard", "big-map", "big-reduce", "reused-result", "reused-through-shuffle"}
+var suite = []string{"map-only", "reduce", "fold", "cogroup", "two-stage", "reshuffle-root", "repartition-flatmap", "reshard", "big-map", "big-reduce", "big-reshuffle", "reused-result", "reused-through-shuffle"}
 
 const runTimeout = 150 * time.Second
 
@@ -613,7 +618,7 @@ func TestVerifC02SingleKill(t *testing.T) {
 		t.Skip()
 	}
 	rec := vt.New("C02", "single-kill-enumeration",
-		"fault enumeration: for each program of the fault suite (map-only, reduce, fold, cogroup, two-stage shuffle, reshuffle root, repartition+flatmap, reshard, multi-batch map, a Func over a reused Result, a reused Result fed directly into a shuffle, a Reduce whose shuffle streams carry thousands of rows; map-only and Reduce also on a cluster of a single machine) a traced failure-free run on the bigmachine test system (no machine combiners) gives the number of RPCs per method; then EVERY single-kill plan (method in {Worker.Compile, Worker.Run, Worker.Stat, Worker.Read incl. the reads of the final scan, Supervisor.Keepalive, Worker.TaskStats, Worker.FuncLocations} x occurrence (capped: 6, Worker.Read 40) x {before the call, after its reply, after its reply with the reply dropped, after its reply with the reply delivered 1.8 s later i.e. after the driver has learnt of the loss (Worker.Run/Compile/Read), and for Worker.Read while the reply streams (after 100 / 3000 / 20000 bytes)} x victim {the call's target, another machine}) is executed in a disposable child process (quick tier: a seeded sample of the plans); oracle: Run and scan either report an error or deliver exactly the reference rows, never block (150 s), and after the plan is disabled (a) if the first Run had succeeded, scanning its Result again delivers the reference rows within 3 attempts and (b) the same Func succeeds with the reference rows within 3 attempts; non-trivial = the kill fired; distinct by (program, plan)")
+		"fault enumeration: for each program of the fault suite (map-only, reduce, fold, cogroup, two-stage shuffle, reshuffle root, repartition+flatmap, reshard, multi-batch map, a Reshuffle root with shards of tens of kilobytes, a Func over a reused Result, a reused Result fed directly into a shuffle, a Reduce whose shuffle streams carry thousands of rows; map-only and Reduce also on a cluster of a single machine) a traced failure-free run on the bigmachine test system (no machine combiners) gives the number of RPCs per method; then EVERY single-kill plan (method in {Worker.Compile, Worker.Run, Worker.Stat, Worker.Read incl. the reads of the final scan, Supervisor.Keepalive, Worker.TaskStats, Worker.FuncLocations} x occurrence (capped: 6, Worker.Read 40) x {before the call, after its reply, after its reply with the reply dropped, after its reply with the reply delivered 1.8 s later i.e. after the driver has learnt of the loss (Worker.Run/Compile/Read), and for Worker.Read while the reply streams (after 100 / 3000 / 20000 bytes)} x victim {the call's target, another machine}) is executed in a disposable child process (quick tier: a seeded sample of the plans); oracle: Run and scan either report an error or deliver exactly the reference rows, never block (150 s), and after the plan is disabled (a) if the first Run had succeeded, scanning its Result again delivers the reference rows within 3 attempts and (b) the same Func succeeds with the reference rows within 3 attempts; non-trivial = the kill fired; distinct by (program, plan)")
 	seen := map[string]bool{}
 	docs, only := vt.Replays(tSingle)
 	if len(docs) > 0 {
@@ -691,7 +696,7 @@ func TestVerifC02SingleKill(t *testing.T) {
 			sc.Program == "big-reduce" && tr.Phase == "mid" && tr.N < 6 && tr.CutAfter >= 3000 ||
 			// the machine serving the final scan dies while a shard streams: the scan re-evaluates the
 			// shard and resumes; a recomputed shuffle output need not hold its rows in the same order
-			tr.Method == "Worker.Read" && tr.Phase == "mid" && tr.CutAfter == 100 && tr.N >= counts[variant{sc.Program, sc.Par}]["Worker.Read"]-3
+			tr.Method == "Worker.Read" && tr.Phase == "mid" && (tr.CutAfter == 100 || sc.Program == "big-reshuffle") && tr.N >= counts[variant{sc.Program, sc.Par}]["Worker.Read"]-3
 		if must && !picked[i] {
 			k++
 			if vt.Mine(k) {
